@@ -260,7 +260,10 @@ cdef class DefaultRecordBatch:
             self, Py_ssize_t pos, Py_ssize_t size) except -1:
         """ Confirm that the slice is not outside buffer range
         """
-        if pos + size > self._buffer.len:
+        # NOTE: written so that hostile sizes (up to 2**63 - 1 from a varint)
+        #       can't overflow the addition
+        if size < 0 or pos < 0 or pos > self._buffer.len or \
+                size > self._buffer.len - pos:
             raise CorruptRecordException(
                 "Can't read {} bytes from pos {}".format(size, pos))
 
